@@ -299,80 +299,73 @@ func C14(c *Ctx) {
 		c.R.Check(okOne, "C14-R2", "mcrew Route: a machine id addresses exactly that machine", c.P.Pos(route.Pos()), "singleton", "a routing target does not yield exactly the named machine")
 	}
 	// ---- R3 queue in ProcessMsg
-	var qcell *ssa.Alloc
-	ssau.Instrs(pm, func(in ssa.Instruction) {
-		if al, ok := in.(*ssa.Alloc); ok && al.Heap {
-			if sl, isSl := al.Type().Underlying().(*types.Pointer).Elem().Underlying().(*types.Slice); isSl && types.IsInterface(sl.Elem()) && al.Comment == "pending" {
-				qcell = al
-			}
-		}
-	})
-	if qcell == nil {
-		// fall back: the cell whose element 0 is loaded in the loop
-		ssau.Instrs(pm, func(in ssa.Instruction) {
-			if ia, ok := in.(*ssa.IndexAddr); ok {
-				if n, isC := ssau.ConstInt(ia.Index); isC && n == 0 {
-					if cell := cellOf(ia.X); cell != nil {
-						if al, isAl := cell.(*ssa.Alloc); isAl {
-							qcell = al
-						}
-					}
-				}
-			}
-		})
-	}
-	if qcell == nil {
-		c.R.Violate("C14-R3", "ProcessMsg: pending queue", c.P.Pos(pm.Pos()), "the pending queue is not a slice variable popped at the front (cannot establish FIFO order)")
+	cq := findCrewQueue(pm)
+	if cq == nil {
+		c.R.Violate("C14-R3", "ProcessMsg: pending queue", c.P.Pos(pm.Pos()), "the pending queue is not a slice variable whose first element is taken in a loop (cannot establish FIFO order)")
 	} else {
+		w := cq.web
 		okQ := true
 		var why []string
 		pops, pushes := 0, 0
-		for _, st := range cellStoresDeep(qcell, pm) {
-			switch v := st.Val.(type) {
+		for _, m := range w.members(cq.q) {
+			switch v := m.(type) {
 			case *ssa.Slice:
 				n, isC := ssau.ConstInt(v.Low)
-				if isLoadOfCell(v.X, qcell) && isC && n == 1 && v.High == nil {
-					pops++
-					if !flow.InCycle(st.Block()) {
-						okQ = false
-						why = append(why, "pop outside the loop")
+				if w.same(v.X, cq.q) && v.X != ssa.Value(v) && isSliceT(v.X.Type()) {
+					if isC && n == 1 && v.High == nil && v.Max == nil {
+						pops++
+						if !cq.loop.Blocks[v.Block()] {
+							okQ = false
+							why = append(why, "pop outside the loop")
+						}
+						continue
 					}
+					okQ = false
+					why = append(why, "queue re-sliced as "+v.String())
 					continue
 				}
-				if al, isAl := v.X.(*ssa.Alloc); isAl && !flow.InCycle(st.Block()) {
-					_ = al
-					continue // initial make
+				if _, isAl := v.X.(*ssa.Alloc); isAl && !flow.InCycle(v.Block()) {
+					continue // initial make / literal
 				}
 				okQ = false
 				why = append(why, "queue re-sliced as "+v.String())
 			case *ssa.Call:
-				if bi, isB := v.Common().Value.(*ssa.Builtin); isB && bi.Name() == "append" && isLoadOfCell(v.Common().Args[0], qcell) {
+				if bi, isB := v.Common().Value.(*ssa.Builtin); isB && bi.Name() == "append" {
 					pushes++
 					continue
 				}
 				okQ = false
 				why = append(why, "queue assigned "+v.String())
 			case *ssa.MakeSlice:
+				if flow.InCycle(v.Block()) {
+					okQ = false
+					why = append(why, "queue re-made inside the loop")
+				}
+			case *ssa.Phi, *ssa.Alloc, *ssa.FreeVar:
+			case *ssa.UnOp:
+				if v.Op != token.MUL {
+					okQ = false
+					why = append(why, "queue assigned "+v.String())
+				}
 			default:
 				okQ = false
-				why = append(why, "queue assigned "+st.Val.String())
+				why = append(why, "queue assigned "+m.String())
 			}
 		}
-		c.R.Check(okQ && pops == 1 && pushes >= 2, "C14-R3", "ProcessMsg: pending is popped only at the front and pushed only at the back", c.pos(qcell), fmt.Sprintf("%d pop ([1:]), %d pushes (append)", pops, pushes), fmt.Sprintf("the pending queue is not a plain FIFO (%d pops, %d pushes): %s", pops, pushes, strings.Join(why, "; ")))
+		sort.Strings(why)
+		c.R.Check(okQ && pops == 1 && pushes >= 2, "C14-R3", "ProcessMsg: pending is popped only at the front and pushed only at the back", c.pos(cq.head), fmt.Sprintf("%d pop ([1:]), %d pushes (append)", pops, pushes), fmt.Sprintf("the pending queue is not a plain FIFO (%d pops, %d pushes): %s", pops, pushes, strings.Join(why, "; ")))
 		// processed message = element 0 before the pop; loop until empty
 		okHead, okLoop := false, false
+		if n, isC := ssau.ConstInt(cq.head.Index); isC && n == 0 {
+			okHead = true
+		}
 		ssau.Instrs(pm, func(in ssa.Instruction) {
-			if ia, ok := in.(*ssa.IndexAddr); ok && isLoadOfCell(ia.X, qcell) {
-				if n, isC := ssau.ConstInt(ia.Index); isC && n == 0 {
-					okHead = true
-				}
-			}
 			if bo, ok := in.(*ssa.BinOp); ok && (bo.Op == token.LSS || bo.Op == token.GTR || bo.Op == token.NEQ) {
 				for _, side := range []ssa.Value{bo.X, bo.Y} {
 					if cl, isC := side.(*ssa.Call); isC {
-						if bi, isB := cl.Common().Value.(*ssa.Builtin); isB && bi.Name() == "len" && isLoadOfCell(cl.Common().Args[0], qcell) {
+						if bi, isB := cl.Common().Value.(*ssa.Builtin); isB && bi.Name() == "len" && w.same(cl.Common().Args[0], cq.q) {
 							for _, r := range ssau.Referrers(bo) {
-								if iff, isIf := r.(*ssa.If); isIf && flow.InCycle(iff.Block()) {
+								if iff, isIf := r.(*ssa.If); isIf && iff.Block() == cq.loop.Header {
 									okLoop = true
 								}
 							}
@@ -381,7 +374,18 @@ func C14(c *Ctx) {
 				}
 			}
 		})
-		c.R.Check(okHead && okLoop, "C14-R3", "ProcessMsg: processes element 0 until the queue is empty", c.pos(qcell), "head element taken; loop condition is the queue's length", "the loop does not take the first pending message / does not run until the queue is empty")
+		// the head is taken from the queue as it stands before the pop of the same trip
+		for _, m := range w.members(cq.q) {
+			if sl, isSl := m.(*ssa.Slice); isSl && w.same(sl.X, cq.q) && cq.loop.Blocks[sl.Block()] {
+				if !flow.InstrDominates(cq.head, sl) {
+					okHead = false
+				}
+				if sameSliceValue(w, sl.X, cq.head.X) == false {
+					okHead = false
+				}
+			}
+		}
+		c.R.Check(okHead && okLoop, "C14-R3", "ProcessMsg: processes element 0 until the queue is empty", c.pos(cq.head), "head element taken; loop condition is the queue's length", "the loop does not take the first pending message / does not run until the queue is empty")
 	}
 	// RunMachines walks each returned recipient once: a single range over the ids with one RunMachine call
 	runM := c.P.Func("sio", "Crew", "RunMachine")
